@@ -11,14 +11,14 @@ ROOT = os.path.dirname(os.path.dirname(os.path.abspath(__file__)))
 
 def sh(cmd, cwd):
     p = subprocess.run(cmd, shell=True, cwd=cwd, stdout=subprocess.PIPE, stderr=subprocess.STDOUT, text=True,
-                       env=dict(os.environ, CARGO_NET_OFFLINE="true", CARGO_TARGET_DIR="/tmp/mut/shared-target"))
+                       env=dict(os.environ, CARGO_NET_OFFLINE="true", CARGO_TARGET_DIR=os.environ.get("CONFIRM_TARGET", "/tmp/mut/shared-target")))
     return p.returncode, p.stdout
 
 def confirm(name):
     d = os.path.join(ROOT, "seeded", name)
-    wave = "/tmp/mut6/" if "-w6" in name else "/tmp/mut5/" if "-w5" in name else "/tmp/mut4/" if "-w4" in name else ("/tmp/mut3/" if "-w3" in name else ("/tmp/mut2/" if "-w2" in name else "/tmp/mut/"))
+    wave = "/tmp/mut7/" if "-w7" in name else "/tmp/mut6/" if "-w6" in name else "/tmp/mut5/" if "-w5" in name else "/tmp/mut4/" if "-w4" in name else ("/tmp/mut3/" if "-w3" in name else ("/tmp/mut2/" if "-w2" in name else "/tmp/mut/"))
     wt = wave + name.split("-")[0]
-    mk = name.split("-")[1].replace("w2", "").replace("w3", "").replace("w4", "").replace("w5", "").replace("w6", "")
+    mk = name.split("-")[1].replace("w2", "").replace("w3", "").replace("w4", "").replace("w5", "").replace("w6", "").replace("w7", "")
     run = open(os.path.join(d, "RUN.md")).read()
     m_cp = re.search(r"cp\s+_mutant/%s/demo\.rs\s+(\S+)" % mk, run)
     m_test = re.search(r"(cargo test [^\n]*--test\s+\S+[^\n]*)", run)
